@@ -1,6 +1,6 @@
 (* C07 proofs, part 8: the theorem for stage 2 + prefix unary operators. *)
 From Coq Require Import List NArith Bool Arith Lia.
-From CV Require Import Ast.Defs Ast.Basics Ast.Ctx Ast.Stage1 Ast.Main1 Ast.Stage2 Ast.Main2 Ast.NoDecl Ast.Stage3.
+From CV Require Import Ast.Defs Ast.Frag Ast.Basics Ast.Ctx Ast.Stage1 Ast.Main1 Ast.Stage2 Ast.Main2 Ast.NoDecl Ast.Stage3.
 Import ListNotations.
 
 Fixpoint frag3 (e : expr) : bool :=
